@@ -52,122 +52,172 @@ def r181(chk, m):
                 'collator must be a collation sort key with a lower-casing fallback: %s' % col, chk.where(mod))
 
 
-def r182_merge(chk, m):
-    R = chk.rule('R18.2', 'exactly-once placement: the common-prefix count stops at the first differing level; per entry one page '
-                 'destination is appended, one index node is created per missing level and the walk returns to the common level; '
-                 'every item goes into exactly one letter group and exactly one column', 8)
-    fn = m.func(MOD, 'IndexUtils.digest')
-    loops = [n for n in M.walk_no_nested(fn.node) if isinstance(n, ast.For) and text(n.iter) == 'entries']
-    need(len(loops) == 1, 'IndexUtils.digest: merge loop not found')
-    merge = loops[0]
-    pre = [n for n in merge.body if isinstance(n, ast.For) and 'zip(' in text(n.iter)]
-    need(len(pre) == 1, 'IndexUtils.digest: common-prefix loop not found')
-    pl = pre[0]
-    res = {}
-    for eq in (True, False):
-        class H(A.Hooks):
-            def decide(self, interp, test, state):
-                if isinstance(test, ast.Compare) and isinstance(test.ops[0], (ast.Eq, ast.NotEq)) and 'prevkey' in text(test):
-                    return eq if isinstance(test.ops[0], ast.Eq) else not eq
-                return None
+def index_hooks(m, cls):
+    from . import domheap as D
 
-            def keep(self, ev):
-                return ev[0] == 'aug'
-        it = A.Interp(model=m, scope=fn, hooks=H(), max_iter=1, exc_edges=False)
-        outs = it.block(pl.body, [A.State({'common': 0})])
-        acts = set()
-        for kind in ('fall', 'continue', 'break', 'return'):
-            for s, v in outs.get(kind, []):
-                acts.add((kind if kind != 'fall' else 'continue', s.env.get('common')))
-        res[eq] = acts
-    chk.verdict(R, 'common prefix stops at the first difference', res == {True: {('continue', 1)}, False: {('break', 0)}},
-                'per level, equal -> %s (want count+1, go on), different -> %s (want stop): counting matches after a difference puts a '
-                'sub-entry under the wrong parent' % (sorted(res[True]), sorted(res[False])), chk.where(fn, pl))
-    init = [text(n.value) for n in merge.body if isinstance(n, ast.Assign) and text(n.targets[0]) == 'common']
-    chk.verdict(R, 'common prefix counted per entry from 0', init == ['0'], 'common is initialised per entry by %s' % init, chk.where(fn, merge))
-    # pages appended exactly once per entry
-    app = [s for s in merge.body if isinstance(s, ast.Expr) and isinstance(s.value, ast.Call) and M.call_name(s.value) == 'current.pages.append']
-    chk.verdict(R, 'one page destination per entry', len(app) == 1 and 'IndexDestination(item.type, item.node)' in text(app[0]) and
-                sum(1 for c in ast.walk(merge) if isinstance(c, ast.Call) and M.call_name(c).endswith('pages.append')) == 1,
-                'each entry must append exactly one IndexDestination to its node unconditionally', chk.where(fn, merge))
-    whiles = [s for s in merge.body if isinstance(s, ast.While)]
-    ok = len(whiles) == 2 and text(whiles[0].test) == 'i < len(prev.key)' and text(whiles[1].test) == 'i < len(item.key)'
-    def body_of(w):
-        return [text(s) for s in w.body]
-    ok = ok and body_of(whiles[0]) == ['current = current.parentNode', 'i += 1']
-    b1 = body_of(whiles[1]) if len(whiles) == 2 else []
-    ok = ok and b1[:1] == ['newidx = self.Index()'] and 'newidx.key = item.key[i]' in b1 and 'newidx.sortkey = item.sortkey[i]' in b1 \
-        and 'current.append(newidx)' in b1 and 'current = newidx' in b1 and b1[-1] == 'i += 1'
-    starts = [text(s.value) for s in merge.body if isinstance(s, ast.Assign) and text(s.targets[0]) == 'i']
-    chk.verdict(R, 'walk out to the common level, then add one node per missing level', ok and starts == ['common', 'common'],
-                'the merge must pop to the common level (i from common while i < len(prev.key)) and then create one Index node per '
-                'level (i from common while i < len(item.key)); found %s / %s / starts %s' % (body_of(whiles[0]) if whiles else None, b1, starts),
-                chk.where(fn, merge))
-    chk.verdict(R, 'previous entry advances', text(merge.body[-1]) == 'prev = item', 'the loop must end with prev = item', chk.where(fn, merge))
+    class H(D.DomHooks):
+        def call(self, interp, node, fname, args, kwargs, state):
+            if fname in ('self.Index', 'IndexUtils.Index') and not args:
+                k = state.env.get('__new', 0)
+                state.env['__new'] = k + 1
+                me = state.env.get('self')
+                nested = m.cls(MOD, 'IndexUtils').nested['Index']
+                return A.Obj('idx%d' % k, {'nodeType': D.ELEMENT, 'nodeName': 'Index', 'parentNode': None, 'ownerDocument': getattr(me, 'attrs', {}).get('ownerDocument'),
+                                        'attributes': None, '_dom_childNodes': [], '__eqkey': ('idx', k), 'pages': [], 'key': [], 'sortkey': '',
+                                        'isElementContentWhitespace': False}, cls=nested)
+            if fname == 'sorted' and len(args) == 1 and isinstance(args[0], list):
+                return list(args[0])          # the entries are handed over in collation order (R18.1 decides the order relation)
+            if fname == 'unidecode' and len(args) == 1 and isinstance(args[0], str):
+                return args[0]
+            if fname.endswith('stringletters') and not args:
+                return 'abcdefghijklmnopqrstuvwxyzABCDEFGHIJKLMNOPQRSTUVWXYZ'
+            if fname in ('Environment.digest', 'Command.digest', 'Command.__init__', 'Environment.__init__'):
+                return A.NONE
+            if fname == 'isinstance' and len(args) == 2 and isinstance(args[0], A.Obj) and text(node.args[1]) == 'Environment':
+                return False
+            return D.DomHooks.call(self, interp, node, fname, args, kwargs, state)
+    return H(m, cls)
+
+
+def r182_merge(chk, m):
+    from . import domheap as D
+    R = chk.rule('R18.2', 'exactly-once placement, decided on a heap: the merge of sorted entries builds one node per distinct key path '
+                 '(a shared prefix is shared, a repeated path is one node), with one page reference per occurrence in order; the '
+                 'letter groups hold every item exactly once under the heading of its initial; the column split keeps every item '
+                 'exactly once, in order, in the requested number of columns', 8)
+    IU = m.cls(MOD, 'IndexUtils')
+    fn = m.find_method(IU, 'digest')
+    need(fn is not None, 'IndexUtils.digest not found')
+    chk.analysed(fn)
+
+    def entry(d, path, typ=0):
+        keys = [d.elem('key:%s' % k, eq='key:%s' % k) for k in path]
+        node = d.elem('occ%d' % d.n)
+        d.n += 1
+        return A.Obj('entry:%s' % '!'.join(path), {'key': keys, 'sortkey': list(path), 'type': typ, 'node': node, 'format': None})
+
+    def shape(node):
+        out = []
+        for c in D.children(node) or []:
+            pages = c.attrs.get('pages')
+            keyl = c.attrs.get('sortkey')
+            out.append((keyl if isinstance(keyl, str) else 'TOP', len(pages) if isinstance(pages, list) else 'TOP',
+                        tuple(p.attrs.get('_cr_node').label if isinstance(p, A.Obj) and isinstance(p.attrs.get('_cr_node'), A.Obj) else 'TOP' for p in pages) if isinstance(pages, list) else (),
+                        shape(c)))
+        return tuple(out)
+    scen = [('shared prefixes and a repeated path', [['a'], ['a', 'b'], ['a', 'b'], ['a', 'c'], ['d']],
+             (('a', 1, ('occ0',), (('b', 2, ('occ1', 'occ2'), ()), ('c', 1, ('occ3',), ()))), ('d', 1, ('occ4',), ()))),
+            ('return to the top level after a deep entry', [['a', 'b', 'c'], ['d', 'b']],
+             (('a', 0, (), (('b', 0, (), (('c', 1, ('occ0',), ()),)),)), ('d', 0, (), (('b', 1, ('occ1',), ()),)))),
+            ('the same key with several kinds of reference', [['k'], ['k'], ['k'], ['k']], (('k', 4, ('occ0', 'occ1', 'occ2', 'occ3'), ()),))]
+    for label, paths, want in scen:
+        d = D.Dom(m)
+        d.n = 0
+        types = [0, 1, 1, 2] if 'several kinds' in label else [0] * len(paths)
+        ents = [entry(d, p, t) for p, t in zip(paths, types)]
+        d.doc.attrs['userdata'] = {'index': ents}
+        me = d.elem('printindex')
+        me.cls = m.cls(MOD, 'printindex')
+        h = index_hooks(m, me.cls)
+        h.should_inline = lambda fname, node, info: info is None or getattr(node, 'name', '') != 'digest'
+        it = A.Interp(model=m, scope=fn, hooks=h, max_iter=12, exc_edges=False, inline=10, heap=True, precise_exc=True, max_states=30000)
+        it.run_init = True
+        try:
+            outs = it.run_function(fn, env={'self': me, 'tokens': A.Sym('tokens'), '__me': me})
+            need(not it.imprecise, 'IndexUtils.digest: %s' % it.imprecise[:2])
+        except AnalysisError as e:
+            chk.undecided(R, 'merge: %s' % label, str(e), chk.where(fn))
+            continue
+        chk.paths += len(outs)
+        got = {(kind, shape(s2.env['__me'])) for kind, s2, v in outs}
+        chk.decide(R, 'merge: %s' % label, {repr(g) for g in got}, {repr(('return', want))},
+                   'merging the sorted entries %s gives the tree (key, page references, referring nodes, children) %s; expected %s'
+                   % (['!'.join(p) for p in paths], sorted(got, key=repr), want), chk.where(fn))
 
 
 def r182_groups(chk, m):
+    from . import domheap as D
     R = 'R18.2'
     if R not in chk.rules:
-        chk.rule(R, 'index letter groups: every item goes into exactly one group and a new heading (with its own id) starts exactly when the heading changes', 2)
-    fn = m.func(MOD, 'IndexUtils.groups')
+        chk.rule(R, 'index letter groups on a heap: every item goes into exactly one group under the heading of its initial, a new heading '
+                 '(with its own id) starts exactly when the heading changes', 2)
+    IU = m.cls(MOD, 'IndexUtils')
+    fn = IU.properties.get('groups', {}).get('get') or m.find_method(IU, 'groups')
+    need(fn is not None, 'IndexUtils.groups not found')
     chk.analysed(fn)
-    loops = [n for n in fn.node.body if isinstance(n, ast.For)]
-    need(loops, 'IndexUtils.groups: loop not found')
-    loop = loops[0]
-    app = [s for s in loop.body if isinstance(s, ast.Expr) and text(s.value) == 'batches[-1].append(item)']
-    total = sum(1 for c in ast.walk(loop) if isinstance(c, ast.Call) and isinstance(c.func, ast.Attribute) and c.func.attr == 'append' and c.args and text(c.args[0]) == 'item')
-    chk.verdict(R, 'groups: every item goes into exactly one batch', len(app) == 1 and total == 1 and loop.body[-1] is app[0],
-                'each index item must be appended exactly once, unconditionally, to the current batch', chk.where(fn, loop))
-    ifs = [s for s in loop.body if isinstance(s, ast.If) and 'current' in text(s.test)]
-    ok = False
-    detail = ''
-    if len(ifs) == 1:
-        t = ifs[0].test
-        if isinstance(t, ast.Compare) and isinstance(t.ops[0], ast.NotEq) and text(t.left) == 'current':
-            rhs = text(t.comparators[0])
-            assigned = [text(s.value) for s in ifs[0].body if isinstance(s, ast.Assign) and text(s.targets[0]) == 'current']
-            newg = any('batches.append(' in text(s) for s in ifs[0].body)
-            ok = assigned == [rhs] and newg
-            detail = 'tests current != %s, then sets current = %s' % (rhs, assigned)
-    chk.verdict(R, 'groups: a new heading starts exactly when the heading changes', ok,
-                'the group marker must be compared with and set to the same value (%s): otherwise entries with the same initial get '
-                'repeated headings' % detail, chk.where(fn, loop))
+    for label, keys, want in (('letters, underscore and symbols', ['apple', 'avocado', 'Banana', 'berry', '_x', '1abc', '?'],
+                               (('A', 'A', ('apple', 'avocado')), ('B', 'B', ('Banana', 'berry')), ('_ (Underscore)', '_', ('_x',)), ('Symbols', 'Symbols', ('1abc', '?')))),
+                              ('a single initial', ['x1', 'x2', 'x3'], (('X', 'X', ('x1', 'x2', 'x3')),)),
+                              ('an empty sort key', ['', 'a'], (('Symbols', 'Symbols', ('',)), ('A', 'A', ('a',))))):
+        d = D.Dom(m)
+        items = []
+        for k in keys:
+            it_ = d.elem('item:%s' % k)
+            it_.attrs.update(sortkey=k, totallen=1)
+            items.append(it_)
+        d.doc.attrs['config'] = {'document': {'index-columns': 2}}
+        me = d.elem('printindex', items)
+        me.cls = m.cls(MOD, 'printindex')
+        h = index_hooks(m, me.cls)
+        h.should_inline = lambda fname, node, info: info is None or getattr(node, 'name', '') in ('__iter__', 'hasChildNodes', 'childNodes', 'splitColumns') or A.private_only(fname, node, info)
+        it = A.Interp(model=m, scope=fn, hooks=h, max_iter=12, exc_edges=False, inline=8, heap=True, precise_exc=True, max_states=30000)
+        it.run_init = True
+        try:
+            outs = it.run_function(fn, env={'self': me})
+            need(not it.imprecise, 'IndexUtils.groups: %s' % it.imprecise[:2])
+        except AnalysisError as e:
+            chk.undecided(R, 'groups: %s' % label, str(e), chk.where(fn))
+            continue
+        got = set()
+        for kind, s2, v in outs:
+            if isinstance(v, list):
+                desc = []
+                for g in v:
+                    flat = [x for col in g for x in (col if isinstance(col, list) else [col])] if isinstance(g, list) else []
+                    desc.append((getattr(g, 'attrs', {}).get('title', 'TOP'), getattr(g, 'attrs', {}).get('id', 'TOP'),
+                                 tuple(x.attrs.get('sortkey') if isinstance(x, A.Obj) else 'TOP' for x in flat)))
+                got.add((kind, tuple(desc)))
+            else:
+                got.add((kind, 'TOP'))
+        chk.decide(R, 'groups: %s' % label, {repr(g) for g in got}, {repr(('return', want))},
+                   'grouping the items with sort keys %s gives (heading, id, members) %s; expected %s' % (keys, sorted(got, key=repr), want), chk.where(fn))
 
 
 def r182_columns(chk, m):
+    from . import domheap as D
     R = 'R18.2'
-    fn = m.func(MOD, 'IndexUtils.splitColumns')
+    IU = m.cls(MOD, 'IndexUtils')
+    fn = m.find_method(IU, 'splitColumns')
+    need(fn is not None, 'IndexUtils.splitColumns not found')
     chk.analysed(fn)
-    loops = [n for n in fn.node.body if isinstance(n, ast.For) and text(n.iter) == 'entries']
-    need(len(loops) == 1, 'splitColumns: placement loop not found')
-    loop = loops[0]
-    item = A.Sym('ITEM', truthy=True, attrs={'distinct': True})
-    h = A.Hooks()
-    h.keep = lambda ev: ev[0] == 'call'
-    it = A.Interp(model=m, scope=fn, hooks=h, max_iter=1, exc_edges=False)
-    outs = it.block(loop.body, [A.State({'item': item, 'num': A.Sym('N'), 'output': A.Sym('OUT'), 'current': A.Sym('CUR')})])
-    counts = []
-    for kind in ('fall', 'continue', 'break'):
-        for s, v in outs.get(kind, []):
-            n = 0
-            for ev in s.trace:
-                if ev[1] in ('output[-1].append', 'output.append'):
-                    arg = ev[2][0] if ev[2] else None
-                    if arg == item or (isinstance(arg, str) and re.fullmatch(r'\[item\]', arg)):
-                        n += 1
-            counts.append((kind, n))
-    chk.paths += len(counts)
-    chk.verdict(R, 'splitColumns: every entry placed in exactly one column', len(counts) >= 4 and all(k == 'fall' and n == 1 for k, n in counts),
-                'on some branch an entry is placed %s times' % sorted(set(counts)), chk.where(fn, loop), '%d branches' % len(counts))
-    src = [text(s) for s in fn.node.body]
-    i_rev = next((i for i, s in enumerate(src) if s == 'entries.reverse()'), None)
-    i_orev = next((i for i, s in enumerate(src) if s == 'output.reverse()'), None)
-    inner = any(isinstance(s, ast.For) and text(s.iter) == 'output' and [text(x) for x in s.body] == ['item.reverse()'] for s in fn.node.body)
-    pad = [s for s in fn.node.body if isinstance(s, ast.For) and 'cols - len(output)' in text(s.iter)]
-    okpad = len(pad) == 1 and [text(x) for x in pad[0].body] == ['output.append([])']
-    chk.verdict(R, 'splitColumns: order restored, padding only adds empty columns', None not in (i_rev, i_orev) and i_rev < i_orev and inner and okpad,
-                'the reversal used for filling must be undone on output (columns and entries) and padding may only append empty columns', chk.where(fn))
+    for label, lens, cols in (('seven entries, three columns', [1, 3, 1, 2, 1, 1, 4], 3), ('fewer entries than columns', [2], 3), ('one column', [1, 1, 1], 1),
+                              ('equal sizes, two columns', [2, 2, 2, 2], 2), ('no entries', [], 2)):
+        d = D.Dom(m)
+        items = []
+        for i, n in enumerate(lens):
+            it_ = d.elem('e%d' % i)
+            it_.attrs['totallen'] = n
+            items.append(it_)
+        me = d.elem('theindex')
+        me.cls = IU
+        h = index_hooks(m, IU)
+        h.should_inline = A.private_only
+        it = A.Interp(model=m, scope=fn, hooks=h, max_iter=14, exc_edges=False, inline=3, heap=True, precise_exc=True, max_states=30000)
+        try:
+            outs = it.run_function(fn, env={'self': me, 'items': items, 'cols': cols})
+        except AnalysisError as e:
+            chk.undecided(R, 'splitColumns: %s' % label, str(e), chk.where(fn))
+            continue
+        got = set()
+        for kind, s2, v in outs:
+            if isinstance(v, list) and all(isinstance(c, list) for c in v):
+                got.add((kind, len(v), tuple(x.label if isinstance(x, A.Obj) else 'TOP' for c in v for x in c)))
+            else:
+                got.add((kind, 'TOP'))
+        want = ('return', cols, tuple('e%d' % i for i in range(len(lens))))
+        chk.decide(R, 'splitColumns: %s' % label, {repr(g) for g in got}, {repr(want)},
+                   'splitting entries of sizes %s into %d columns gives (outcome, columns, entries in reading order) %s; expected every entry once, '
+                   'in order, in exactly %d columns' % (lens, cols, sorted(got, key=repr), cols), chk.where(fn))
 
 
 # ---------------------------------------------------------------------------
